@@ -23,7 +23,7 @@ Cyc ==
   \cup { <<I(5, "pholder", <<2, 4>>, <<>>), I(4, "pnode", x, <<>>), I(2, "pnode", <<1>>, <<4>>), I(1, "pnode", <<2>>, <<>>)>> : x \in Opt({4, 1}) }
 SetValued ==
   { <<I(1, t1, <<>>, <<>>), I(2, "inode", <<>>, <<>>), I(3, h1, x1, y1), I(4, "iholder", x2, y2)>> :
-      t1 \in {"inode", "isubnode", "isubsub"}, h1 \in {"iholder", "isub"},
+      t1 \in {"inode", "isubnode", "isubsub", "idia", "idl"}, h1 \in {"iholder", "isub"},
       x1 \in {<<>>, <<1>>, <<2>>, <<1, 2>>, <<1, 1>>}, y1 \in Opt({1}),
       x2 \in {<<>>, <<1>>, <<2>>, <<1, 2>>, <<1, 1>>}, y2 \in Opt({1}) }
 Single ==
